@@ -330,5 +330,26 @@ func c17Catalogue(c *fw.Ctx, engines []string) {
 		item++
 		run(item, []bt.Op{{Kind: "DropRowRange", Table: tblT, Prefix: []byte(pfx)}, {Kind: "SampleRowKeys", Table: tblT, Coins: []bool{true, false, true, false}}})
 	}
+	// a table longer than the engines' batching constants: reads cut around the 100th/200th row, a prefix drop of
+	// 100 rows, a family drop and a GC pass over all rows
+	var long []string
+	for i := 0; i < 260; i++ {
+		long = append(long, fmt.Sprintf("r%03d", i))
+	}
+	setup = append(setupT(), populate(long, 1)[1:]...)
+	k := func(i int) []byte { return []byte(fmt.Sprintf("r%03d", i)) }
+	var lr []bt.Op
+	lr = append(lr, bt.Op{Kind: "ReadRows", Table: tblT})
+	for _, b := range []int{99, 100, 101, 199, 200, 201} {
+		lr = append(lr, bt.Op{Kind: "ReadRows", Table: tblT, Limit: int64(b)},
+			bt.Op{Kind: "ReadRows", Table: tblT, HasRowSet: true, Ranges: []bt.Range{{SK: 2, S: k(b)}}},
+			bt.Op{Kind: "ReadRows", Table: tblT, HasRowSet: true, Ranges: []bt.Range{{SK: 1, S: k(2), EK: 1, E: k(b)}}, Limit: int64(b - 1)})
+	}
+	item++
+	run(item, lr)
+	item++
+	run(item, []bt.Op{{Kind: "DropRowRange", Table: tblT, Prefix: []byte("r1")}, {Kind: "ReadRows", Table: tblT, Limit: 150}})
+	item++
+	run(item, []bt.Op{{Kind: "ModifyFamilies", Table: tblT, Mods: []bt.Mod{{ID: "f", Op: "drop"}}}, {Kind: "SampleRowKeys", Table: tblT, Coins: []bool{false, true}}, {Kind: "ModifyFamilies", Table: tblT, Mods: []bt.Mod{{ID: "f", Op: "create"}}}, {Kind: "ReadRows", Table: tblT}})
 	c.Bound("catalogue_reads", len(reads))
 }
